@@ -93,7 +93,8 @@ TECHNIQUE = {
 }
 
 # properties whose builder-written rule has been reviewed, is silent on the unchanged tree and passes its self-test
-INTEGRATED = ["C21", "C24", "C09", "C32", "C29", "C36"]
+INTEGRATED = ["C21", "C24", "C09", "C32", "C29", "C36", "C12", "C39", "C33", "C13", "C14", "C15", "C16", "C40",
+              "C34", "C38", "C37", "C05", "C07", "C17", "C22", "C08", "C10", "C11"]
 
 
 def _load_integrated():
@@ -105,8 +106,18 @@ def _load_integrated():
         if pid in CLAIMED:
             continue
         n = notes.get(pid) or {}
-        text = n.get("text") or TECHNIQUE[pid]
-        note = n.get("note") or "Trusted: CPython ast, agstatic engine, spec tables transcribed in the rule."
+        import re as _re
+
+        def _clean(t):
+            t = t or ""
+            t = _re.sub(r"^[/:\s]*(trusted base)?\s*(\(manifest\))?\s*(\*?(Level text|Text)\*?\s*:)?\s*", "", t, flags=_re.I)
+            return t.replace("`", "").strip()
+        text = _clean(n.get("text")) or TECHNIQUE[pid]
+        note = _clean(n.get("note"))
+        if not note or note[:40] == text[:40]:
+            m = _re.search(r"(?i)trusted base\W+(.*)", text)
+            note = m.group(1) if m else "CPython ast, the agstatic engine modules the rule imports, and the spec tables transcribed in the rule."
+            text = _re.split(r"(?i)\W*trusted base", text)[0]
         claim(pid, TECHNIQUE[pid], text[:900], ("Trusted base: " + note)[:700])
 
 
